@@ -636,6 +636,11 @@ class CCA(CCABaseModel):
             Input data to transform
 
         """
+        if len(views) != len(self.preprocessors):
+            raise ValueError(
+                f"number of views passed ({len(views)}) should match the number of "
+                f"views used for fitting ({len(self.preprocessors)})"
+            )
         view_preprocessed = []
         for i, view in enumerate(views):
             view_preprocessed.append(self.preprocessors[i].transform(view))
